@@ -26,8 +26,10 @@ PROPS = {
     },
     "C04": {
         "theorems": ["C04_status_total", "C04_http_to_rpc", "C04_grpc_message_roundtrip", "C04_grpc_message_printable"],
-        "suites": [{"name": "status", "quick": 1, "thorough": 1}, {"name": "percent", "quick": 300, "thorough": 20000}],
-        "required_tags": ["status.from_rpc:small", "status.from_rpc:large", "status.to_rpc:sweep", "percent.grpc_decode:pairs", "percent.grpc_encode:single"],
+        "suites": [{"name": "status", "quick": 1, "thorough": 1}, {"name": "percent", "quick": 150, "thorough": 20000},
+                   {"name": "respflow", "quick": 1200, "thorough": 40000}],
+        "required_tags": ["status.from_rpc:small", "status.from_rpc:large", "status.to_rpc:sweep", "percent.grpc_decode:pairs", "percent.grpc_encode:single",
+                          "respflow:error", "respflow:bare-http", "respflow:error-oddcode", "respflow:error-trailers-only"],
         "trivial_tags": ["empty"],
         "level_text": "wip", "level_note": "wip",
     },
@@ -57,6 +59,13 @@ PROPS = {
         "theorems": [],
         "suites": [{"name": "respflow", "quick": 1500, "thorough": 40000}],
         "required_tags": ["respflow:success", "respflow:error", "respflow:bare-http", "respflow:error-trailers-only"],
+        "trivial_tags": [],
+        "level_text": "wip", "level_note": "wip",
+    },
+    "C05": {
+        "theorems": [],
+        "suites": [{"name": "respflow", "quick": 1500, "thorough": 40000}, {"name": "negotiate", "quick": 1000, "thorough": 30000}],
+        "required_tags": ["respflow:success", "respflow:error", "negotiate.outcome:backend"],
         "trivial_tags": [],
         "level_text": "wip", "level_note": "wip",
     },
